@@ -430,6 +430,96 @@ func interleavings(c *kit.Ctx, ssa bool, n int) {
 	c.Count("distinct_schedules_"+mode, int64(len(schedules)))
 }
 
+// ---- (c2) bounded-preemption enumeration ----
+
+// preemptions enumerates "claim A's controller runs k1 calls, intruder 1 runs to completion, A
+// runs k2 more calls, intruder 2 runs to completion, A finishes" over a grid, for every ordered
+// pair of intruders among the XR controller, another claim's controller and a user deleting
+// claim A - so that a given window of the binding protocol is hit by construction.
+func preemptions(c *kit.Ctx, ssa bool) {
+	mode := map[bool]string{false: "csa", true: "ssa"}[ssa]
+	intruders := []string{"xr", "claimB", "userdel"}
+	k1max, k2max, k2step := 14, 8, 4
+	if c.Thorough() {
+		k1max, k2max, k2step = 22, 12, 2
+	}
+	var mu sync.Mutex
+	var wg sync.WaitGroup
+	sem := make(chan struct{}, 8)
+	n := 0
+	for _, warm := range []int{0, 1} {
+		for _, i1 := range intruders {
+			for _, i2 := range intruders {
+				if i1 == i2 {
+					continue
+				}
+				for k1 := 0; k1 <= k1max; k1++ {
+					for k2 := 0; k2 <= k2max; k2 += k2step {
+						caseName := fmt.Sprintf("preempt/%s/warm%d/%s-%s/k%d-%d", mode, warm, i1, i2, k1, k2)
+						if !c.Want(caseName) {
+							continue
+						}
+						n++
+						wg.Add(1)
+						sem <- struct{}{}
+						go func(idx, warm int, i1, i2 string, k1, k2 int, caseName string) {
+							defer wg.Done()
+							defer func() { <-sem }()
+							w := baseWorld(uint64(c.Seed)*47 + uint64(idx))
+							w.MustSeed("user", claimObj("ns1", "c1"))
+							w.MustSeed("user", claimObj("ns2", "c1"))
+							m := newMonitor()
+							m.actorClaim["claimA"] = claimKey("ns1", "c1")
+							m.actorClaim["claimB"] = claimKey("ns2", "c1")
+							w.AddHook(m.hook)
+							ceA := xrk.NewClaimEnvWithClient(w, xrdName, ssa, w.Client("claimA"))
+							ceB := xrk.NewClaimEnvWithClient(w, xrdName, ssa, w.Client("claimB"))
+							xe := xrk.NewXREnv(w, ceA.XRD)
+							for k := 0; k < warm; k++ {
+								_, _, _ = ceA.Reconcile("ns1", "c1")
+								for _, xr := range w.ListObjs(xrGK) {
+									_, _, _ = xe.Reconcile(sim.Str(xr, "metadata", "name"))
+								}
+							}
+							from := w.LogLen()
+							s := w.NewScheduler()
+							s.Go("claimA", func() {
+								for k := 0; k < 2; k++ {
+									_, _, _ = ceA.Reconcile("ns1", "c1")
+								}
+							})
+							s.Go("claimB", func() { _, _, _ = ceB.Reconcile("ns2", "c1") })
+							s.Go("xr", func() {
+								for _, xr := range w.ListObjs(xrGK) {
+									_, _, _ = xe.Reconcile(sim.Str(xr, "metadata", "name"))
+								}
+							})
+							u := w.Client("userdel")
+							s.Go("userdel", func() {
+								_ = u.Delete(context.Background(), &unstructured.Unstructured{Object: claimObj("ns1", "c1")})
+							})
+							plan := []sim.Segment{{Actor: "claimA", Steps: k1}, {Actor: i1, Steps: -1}, {Actor: "claimA", Steps: k2}, {Actor: i2, Steps: -1}, {Actor: "claimA", Steps: -1}}
+							sched := s.Run(sim.PlanChooser(plan), 5000)
+							w.SetScheduler(nil)
+							settle(ceA, xe, "ns1", "c1", true, 6)
+							settle(ceB, xe, "ns2", "c1", true, 6)
+							mu.Lock()
+							c.Eval(caseName, true)
+							c.Count("preemption_plans", 1)
+							c.Count("invariant_evaluations", int64(m.checks))
+							report(c, m, mode, caseName, func() any {
+								return map[string]any{"mode": mode, "plan": caseName, "schedule": strings.Join(sched, " "), "trace": shortLog(w, from, 120)}
+							})
+							mu.Unlock()
+						}(n, warm, i1, i2, k1, k2, caseName)
+					}
+				}
+			}
+		}
+	}
+	wg.Wait()
+}
+
 // ---- (d) statically referenced XRs ----
 
 func staticRefs(c *kit.Ctx, ssa bool) {
@@ -483,13 +573,14 @@ func staticRefs(c *kit.Ctx, ssa bool) {
 
 func main() {
 	c := kit.New("C06", "fault_enumeration")
-	c.Rule = "both claim syncers (production wiring captured from the real offered reconciler): (a) for every claim reconcile of the fault-free run, EVERY API-call index x 6 outcomes, then retries; (b) claim reads served from a cache lagging 1..12 writes (claims only / claims and XRs), at three points of the binding; (c) seeded random schedules at API-call granularity of two claims with the same name in different namespaces, the XR reconciler and user deletion of a claim; (d) statically referenced XRs bound to another claim / nobody. Hook invariants on every store state: O1 <=1 XR per claim, O2 XR created only under the name already stored in the claim's spec.resourceRef, O3 no mutating call to an XR whose stored claimRef names another claim. distinct = (mode, position, outcome) / schedule string; non-trivial = fault between the reference update and the XR apply or a crash; a stale read was actually served; >=2 actor switches."
+	c.Rule = "both claim syncers (production wiring captured from the real offered reconciler): (a) for every claim reconcile of the fault-free run, EVERY API-call index x 6 outcomes, then retries; (b) claim reads served from a cache lagging 1..12 writes (claims only / claims and XRs), at three points of the binding; (c) seeded random schedules and an enumerated grid of bounded-preemption plans (A runs k1 calls, intruder 1 completes, A runs k2 more, intruder 2 completes) at API-call granularity of two claims with the same name in different namespaces, the XR reconciler and user deletion of a claim; (d) statically referenced XRs bound to another claim / nobody. Hook invariants on every store state: O1 <=1 XR per claim, O2 XR created only under the name already stored in the claim's spec.resourceRef, O3 no mutating call to an XR whose stored claimRef names another claim. distinct = (mode, position, outcome) / schedule string; non-trivial = fault between the reference update and the XR apply or a crash; a stale read was actually served; >=2 actor switches."
 	c.Assumptions = []string{"sim implements resourceVersion conflicts and the stale-cache view (DESIGN.md 2.2)", "two reconciles of the same claim never run concurrently (work-queue guarantee)", "random 5-char name suffix collisions are out of scope"}
 	c.Floor = 100
 	for _, ssa := range []bool{false, true} {
 		faultEnumeration(c, ssa)
 		staleReads(c, ssa)
 		interleavings(c, ssa, c.N(150, 3000))
+		preemptions(c, ssa)
 		staticRefs(c, ssa)
 	}
 	c.Finish()
